@@ -1196,6 +1196,50 @@ fn apply_fault(img: &mut [Vec<u8>], f: &Fault, history: &std::collections::BTree
     }
 }
 
+/// (byte offset, length) of the fields of whatever structure the independent parser recognises at the start of a page:
+/// an entry header (plus the value's length prefix and the key), a blob index (checksum, count, the first entries), or
+/// - in the tombstone log partition - tombstone slots.
+fn interesting_fields(page: &[u8], tombstone_part: bool) -> Vec<(usize, usize)> {
+    use crate::parser;
+    let mut out = vec![];
+    if tombstone_part {
+        // slot = hash 8 | sequence 8 (16 bytes): the first two non-zero slots
+        for (i, slot) in page.chunks(16).enumerate().filter(|(_, s)| s.iter().any(|b| *b != 0)).take(2) {
+            let _ = slot;
+            out.push((i * 16, 8));
+            out.push((i * 16 + 8, 8));
+        }
+        return out;
+    }
+    if let Some(h) = parser::parse_header(page) {
+        out.extend([(0, 4), (4, 4), (8, 8), (16, 8), (24, 8), (32, 3), (35, 1)]);
+        let body = parser::ENTRY_HEADER;
+        if body + 8 <= page.len() {
+            out.push((body, 8));
+        }
+        let key_at = body + h.value_len;
+        if h.key_len > 0 && key_at + h.key_len <= page.len() {
+            out.push((key_at, h.key_len));
+        }
+        return out;
+    }
+    // blob index? checksum 8 | count 4 | entries (hash 8, sequence 8, offset 4, len 4)
+    let count = u32::from_be_bytes(page[8..12].try_into().unwrap()) as usize;
+    if count > 0 && count <= (2 * parser::PAGE - 12) / 24 && page[..8].iter().any(|b| *b != 0) {
+        out.extend([(0, 8), (8, 4)]);
+        for i in 0..count.min(2) {
+            let b = 12 + i * 24;
+            out.extend([(b, 8), (b + 8, 8), (b + 16, 4), (b + 20, 4)]);
+        }
+        // the last entry decides where the next blob starts
+        if count > 2 && 12 + count * 24 <= page.len() {
+            let b = 12 + (count - 1) * 24;
+            out.extend([(b + 16, 4), (b + 20, 4)]);
+        }
+    }
+    out
+}
+
 /// Older contents of every page (excluding what it holds now), oldest first.
 fn page_history() -> std::collections::BTreeMap<(usize, usize), Vec<Vec<u8>>> {
     use crate::simdev::{self, PAGE};
@@ -1246,10 +1290,22 @@ pub async fn c03_fault_enumeration(h: &mut Hyb) {
     let nparts = clean.len();
     let pages_per_block = g.block_size / PAGE;
     let mut faults: Vec<Fault> = vec![];
+    let clean2 = clean.clone();
     let mut gen_for = |part: usize, page: usize, faults: &mut Vec<Fault>, all: bool| {
         let draw = |n: usize| crate::choice::io_draw(n.max(1));
         if all || draw(5) == 0 {
             faults.push(Fault::BitFlip { part, page, bit: draw(PAGE * 8) });
+        }
+        // structure-aware flips: one bit inside each field of an entry header / blob index / tombstone found on
+        // the page (located with the independent parser), so that every field's validation is exercised
+        let fields = interesting_fields(&clean2[part][page * PAGE..(page + 1) * PAGE], part < first_block);
+        if !fields.is_empty() {
+            hist::probe("c03_structured_page");
+        }
+        for (off, len) in fields {
+            if all || draw(6) == 0 {
+                faults.push(Fault::BitFlip { part, page, bit: (off + draw(len)) * 8 + draw(8) });
+            }
         }
         if all || draw(5) == 0 {
             faults.push(Fault::ZeroPage { part, page });
@@ -1310,7 +1366,7 @@ pub async fn c03_fault_enumeration(h: &mut Hyb) {
             jobs.push(set);
         }
     }
-    let cap = if thorough { 4000 } else { 24 };
+    let cap = if thorough { 4000 } else { 32 };
     jobs.truncate(cap);
     ST.with(|s| s.borrow_mut().crash_writes = simdev::writes_len());
     for (j, set) in jobs.into_iter().enumerate() {
